@@ -778,8 +778,22 @@ func writeReplayFile(file string, h harnessDecl, f *Finding) {
 }
 
 // nativeReplay runs the harness natively (go test with overlay) on the model's input.
+// nativeReplay runs the counterexample against the natively compiled code: first in the default
+// build (what users run), and - when that does not reproduce it and the analysis was made under the
+// purego tag - again with -tags purego: portable Go bodies that have an assembly twin are only
+// compiled into that build, a defect in them is real there (and breaks C14's "all builds agree").
 func nativeReplay(file string, h harnessDecl, f *Finding, ovDecls []harnessDecl) string {
-	out, err := runNative(file, h.RelDir, h.Name, h.PkgName, ovDecls, "")
+	st := nativeReplayTags(file, h, f, ovDecls, "")
+	if st == "not-reproduced" && strings.Contains(*flagTags, "purego") {
+		if st2 := nativeReplayTags(file, h, f, ovDecls, "purego"); strings.HasPrefix(st2, "confirmed") {
+			return st2 + " under -tags purego (the default build takes another implementation)"
+		}
+	}
+	return st
+}
+
+func nativeReplayTags(file string, h harnessDecl, f *Finding, ovDecls []harnessDecl, tags string) string {
+	out, err := runNative(file, h.RelDir, h.Name, h.PkgName, ovDecls, tags)
 	_ = err
 	switch f.Kind {
 	case "assert":
